@@ -30,6 +30,8 @@ def key_fn(case, obs, verdict):
         return "%s@hdr:util.DecodeHTTPConfigHeaders" % verdict.split(" ")[0].replace("BAD:", "")
     if f[0] == "prop":
         return "%s@prop:confutil.PropertyTagResolver" % verdict.split(" ")[0].replace("BAD:", "")
+    if f[0] == "env":
+        return "%s@env:confutil.EnvTagResolver" % verdict.split(" ")[0].replace("BAD:", "")
     if f[0] == "app":
         return "%s:%s@app:%s(%s)" % (verdict.split(" ")[0].replace("BAD:", ""), f[3], _unhex(f[1]), _unhex(f[2]))
     off = 3 if f[0] == "comp" else (2 if f[0] == "typed" else 1)
@@ -59,6 +61,9 @@ def what_fn(case, obs, verdict):
     if f[0] == "prop":
         return "%s (property file %r, key %r; the implementation answered %s)" % (
             verdict.replace("BAD:", ""), _unhex(f[1])[:80], _unhex(f[2]), obs[:60])
+    if f[0] == "env":
+        return "%s (environment %s, asked %r; the implementation answered %s)" % (
+            verdict.replace("BAD:", ""), f[1][:120], _unhex(f[2]), obs[:60])
     if f[0] == "app":
         return "%s (component %s %s, mutation %s at /%s; the implementation answered %s)" % (
             verdict.replace("BAD:", ""), _unhex(f[1]), _unhex(f[2]), f[3], "/".join(_path(f[4])), obs[:60])
@@ -77,7 +82,7 @@ def run(ctx):
               "held option is judged against the written section and the registered default; distinct = distinct case lines"),
         key_fn=key_fn, what_fn=what_fn,
         translators=[("schema", "ConfigSchemaGen.v")],
-        bridge_files=["Gen/ConfigSchema_bridge.v", "Gen/ConfigApplied_bridge.v", "Properties/C17_depth.v", "Properties/C17_ctor.v", "Properties/C17_applied.v"],
+        bridge_files=["Gen/ConfigSchema_bridge.v", "Gen/ConfigApplied_bridge.v", "Properties/C17_depth.v", "Properties/C17_ctor.v", "Properties/C17_applied.v", "Properties/C17_rel.v"],
         trusted=[
             "translator harness/cmd/translate schema (reflection over the real plugin registry after the CLI's imports; package harness/internal/a16schema)",
             "verif hooks in /repo: core/plugin/verif_schema.go (read-only registry listing), cli/verif_export.go (exports readConfig)",
